@@ -37,29 +37,31 @@ type parked struct {
 }
 
 type Sched struct {
-	mu        sync.Mutex
-	Events    []Event
-	threads   map[int64]int        // goroutine id -> thread number
-	thInst    map[int]int          // thread number -> instance whose goroutine it is
-	insts     map[*app.Process]int // process object -> instance id
-	InstName  map[int]string
-	InstProc  map[int]*app.Process
-	parkedT   map[int]*parked
-	parkSet   map[string]bool
-	expectTP  map[int]bool   // thread released into a timed wait: treat as running until its next TP
-	Hold      map[int]bool   // instance -> the next back-off wait is held (1h) instead of elapsing
-	lastBack  map[int]int    // instance -> seconds of the last getBackoff() call
-	stage     map[int]string // thread -> "stop" (inside stopProcess) | "spawnloop" (inside Run's spawn loop) | ""
-	lastTrue  map[int]bool   // thread -> first argument of its last TP was the boolean true
-	sdThread  map[int]bool   // thread -> inside ShutDownProject between shutdown_begin and shutdown_end
-	inFlight  int            // API calls begun and not returned (Run counts until run_spawned)
-	Free      bool           // free-running mode: nothing parks
-	selfG     int64
-	F         *fakecmd.Factory
-	Warnings  []string
-	nextTh    int
-	nextInst  int
-	MaxWaitMs int
+	mu       sync.Mutex
+	Events   []Event
+	threads  map[int64]int        // goroutine id -> thread number
+	thInst   map[int]int          // thread number -> instance whose goroutine it is
+	insts    map[*app.Process]int // process object -> instance id
+	InstName map[int]string
+	InstProc map[int]*app.Process
+	parkedT  map[int]*parked
+	parkSet  map[string]bool
+	expectTP map[int]bool   // thread released into a timed wait: treat as running until its next TP
+	Hold     map[int]bool   // instance -> the next back-off wait is held (1h) instead of elapsing
+	lastBack map[int]int    // instance -> seconds of the last getBackoff() call
+	stage    map[int]string // thread -> "stop" (inside stopProcess) | "spawnloop" (inside Run's spawn loop) | ""
+	lastTrue map[int]bool   // thread -> first argument of its last TP was the boolean true
+	sdThread map[int]bool   // thread -> inside ShutDownProject between shutdown_begin and shutdown_end
+	inFlight int            // API calls begun and not returned (Run counts until run_spawned)
+	Free     bool           // free-running mode: nothing parks
+	selfG    int64
+	F        *fakecmd.Factory
+	Warnings []string
+	// instances whose back-off wait ended by "elapsed" while the harness was holding its timer at one hour
+	EarlyBackoff []int
+	nextTh       int
+	nextInst     int
+	MaxWaitMs    int
 }
 
 var ParkLabels = []string{"spawn", "inst_begin", "dep_wait", "dep_done", "run_checked", "started", "wait_return", "restart_decision",
@@ -170,6 +172,11 @@ func (s *Sched) Point(p *app.Process, _ *app.ProjectRunner, label string, args [
 	}
 	if label == "backoff_wait" {
 		norm = append(norm, s.lastBack[inst])
+	}
+	if label == "backoff_elapsed" && s.Hold[inst] {
+		// the harness gave this back-off a one-hour timer (seam verifBackoff) and the scenario lasts seconds: the wait
+		// ended although neither the timer can have fired nor a stop cancelled it - a relaunch sooner than the back-off
+		s.EarlyBackoff = append(s.EarlyBackoff, inst)
 	}
 	if label == "backoff_cancelled" || label == "backoff_elapsed" {
 		delete(s.Hold, inst)
